@@ -1190,7 +1190,11 @@ func (r condition) string() string {
 	// begin default presentation
 	// handler ...
 	var raw string
-	if meth := getStringer(r.ex); meth != nil {
+	if s, ok := stackTypeAliasConverter(r.ex); ok {
+		raw = s.String()
+	} else if c, ok := conditionTypeAliasConverter(r.ex); ok {
+		raw = c.String()
+	} else if meth := getStringer(r.ex); meth != nil {
 		raw = meth()
 	} else {
 		raw = primitiveStringer(r.ex)
